@@ -359,7 +359,12 @@ Record effect (c : cfg) (s s' : state) (from : Z) (bc : bchange) (fee : Z) : Pro
              + at2 COLL (denom_out c (bc_pair bc)) fee a x;
   ef_sup : forall d, sup s' d = sup s d + at1 (denom_out c (bc_pair bc)) (bc_dout bc) d;
   ef_unsol : unsol s' = unsol s;
-  ef_env : now s' = now s /\ price s' = price s /\ esm s' = esm s /\ snap s' = snap s /\ brk s' = brk s
+  ef_env : now s' = now s /\ price s' = price s /\ esm s' = esm s /\ snap s' = snap s /\ brk s' = brk s;
+  (* the owner -> vault lookup: written when a vault is created (MsgCreate) and cleared when it is closed *)
+  ef_umap : umap s' = match bc with
+                      | BNew v => upd3 (umap s) from (v_app v) (v_pair v) (Some (v_id v))
+                      | BDel v => upd3 (umap s) from (v_app v) (v_pair v) None
+                      | _ => umap s end
 }.
 
 (* ---------- projections of a product map, and how the updaters move them ---------- *)
